@@ -65,17 +65,23 @@ class _TabulationCutoff(object):
     dr = _get_or_none(self._dr_attr, cp_tabulation_section, float)
     cutoff = _get_or_none(self._cutoff_attr, cp_tabulation_section, float)
 
-    if nr and dr and cutoff:
+    # Test for presence rather than truthiness: a value of 0 is still a given value.
+    has_nr = not nr is None
+    has_dr = not dr is None
+    has_cutoff = not cutoff is None
+
+    if has_nr and has_dr and has_cutoff:
       raise ConfigParserException("'{cutoff}', '{nr}' and '{dr}' cannot all be spcified in [Tabulation] section of potential definition.".format(**self._template_dict))
-    elif nr and dr:
+    elif has_nr and has_dr:
       # Set cutoff
       cutoff = (nr-1)*dr      
-    elif cutoff and dr:
-      # Set nr
-      # cutoff/dr for a whole multiple can land just below the integer
-      # (0.7/0.1 = 6.999999999999999): add a small tolerance before truncating.
-      nr = (cutoff/dr) + 1 + 1e-8
-      nr = int(nr)
+    elif has_cutoff and has_dr:
+      # Set nr (a non-positive dr is rejected below)
+      if dr > 0:
+        # cutoff/dr for a whole multiple can land just below the integer
+        # (0.7/0.1 = 6.999999999999999): add a small tolerance before truncating.
+        nr = (cutoff/dr) + 1 + 1e-8
+        nr = int(nr)
     elif not dr is None:
       raise ConfigParserException("'{dr}' cannot be specified without either '{nr}' or '{cutoff}' in [Tabulation] section of potential definition.".format(**self._template_dict))
 
